@@ -11,6 +11,7 @@ import (
 	"github.com/markkurossi/mpc/circuit"
 	"github.com/markkurossi/mpc/compiler/utils"
 
+	"verifharness/internal/mpclgen"
 	"verifharness/internal/refc"
 	"verifharness/internal/vrt"
 )
@@ -81,6 +82,17 @@ func testsuiteTwoParty() []string {
 // from the fixed programs, or compiled from a shipped test program. Returns
 // nil when the pick does not yield a usable 2-party circuit (counted).
 func twoPartyCircuit(cs *vrt.Case, r *vrt.Rng, sel int, maxGates int) (*circuit.Circuit, string) {
+	if sel%5 == 4 {
+		// a generated two-party program
+		g := mpclgen.Generate(r, mpclgen.Config{Args: 2, ScalarArgs: true, Funcs: true, Loops: true, Division: true, Mult: true, NoConst: true, MaxStmts: 3,
+			Widths: []int{1, 2, 3, 5, 7, 8, 9, 15, 16, 17, 33}})
+		c, err, pi := compileMPCL(g.Src, utils.NewParams(), nil)
+		if err != nil || pi != nil || c == nil || c.NumGates > 60000 {
+			cs.Count("generated_programs_not_usable", 1)
+			return nil, ""
+		}
+		return c, "generated program " + fmt.Sprint(vrt.Hash64(g.Src))
+	}
 	switch sel % 4 {
 	case 0, 1:
 		sh := refc.RandShape(r, 2, maxGates)
